@@ -43,6 +43,18 @@ PRIORITY = {
     'introspection.py': ['C02', 'C01', 'C05', 'C06'],
 }
 
+FUNC_PRIORITY = {
+    'require_attribute': ['C16'], 'require_attribute_value': ['C16'], 'require_attribute_value_not': ['C16'],
+    'require_scalar': ['C16'], 'require_mapping': ['C16'], 'require_sequence': ['C16'],
+    'strip_tags': ['C04', 'C01'], 'is_abstract': ['C03'], '__expand_aliases': ['C18'],
+    'construct_object': ['C08', 'C09'], '_sweeten': ['C10', 'C06'], '__savorize': ['C10', 'C02'],
+    'seq_attribute_to_map': ['C15'], 'map_attribute_to_seq': ['C15'], 'index_attribute_to_map': ['C15'],
+    'map_attribute_to_index': ['C15'], 'dashes_to_unders_in_keys': ['C15'], 'unders_to_dashes_in_keys': ['C15'],
+    'matches': ['C14', 'C05'], 'ignore_aliases': ['C07', 'C05'], 'is_generic_mapping': ['C13', 'C02'],
+    'is_generic_sequence': ['C13', 'C02'], 'is_generic_union': ['C13', 'C02'], '__strip_extra_attributes': ['C04', 'C02'],
+    'diagnose_missing_key': ['C17'], 'diagnose_extraneous_key': ['C17'], '__patch_bools': ['C09'],
+}
+
 CMP = {ast.Eq: '!=', ast.NotEq: '==', ast.Lt: '<=', ast.LtE: '<', ast.Gt: '>=', ast.GtE: '>',
        ast.Is: 'is not', ast.IsNot: 'is', ast.In: 'not in', ast.NotIn: 'in'}
 
@@ -302,7 +314,9 @@ def main():
                     if not (rc == 0 and mm and int(mm.group(1)) >= 180):
                         rec['status'] = 'killed_by_tests'
                     else:
-                        order = PRIORITY.get(m['file'], []) + [p for p in ALL if p not in PRIORITY.get(m['file'], [])]
+                        first = FUNC_PRIORITY.get(m['func'], []) + PRIORITY.get(m['file'], [])
+                        first = [p for i, p in enumerate(first) if p not in first[:i]]
+                        order = first + [p for p in ALL if p not in first]
                         order = order[:a.max_checks]
                         rec['status'] = 'survived'
                         rec['ran'] = []
